@@ -171,7 +171,7 @@ class PrintStatementRule(MultiLanguageLintRule):  # thailint: ignore[srp]
         """Parse Python code into AST."""
         try:
             return ast.parse(code or "")
-        except SyntaxError:
+        except (SyntaxError, RecursionError, MemoryError):
             return None
 
     def _collect_python_violations(
